@@ -275,6 +275,10 @@ FAMILY = [
     'def dec(*a):\n  def w(fn):\n    return fn\n  return w\n@dec((1).foo,\n     (2).bar)\nclass K:\n  z: int = "s"\n'
     '  def m(self) -> int:\n    print(self.nope,\n          self.nope2)\n',
     'def r(x) -> int:\n  if x:\n    return "s"\n  print(x.real,\n        (1).foo)\n',
+    # error lines that already end in an ordinary comment: the appended directive is a nested comment
+    'def f(x: int) -> int:\n  return x\nv0 = (1).foo  # TODO(b/1): fix this\nv1 = f("s")  # note: wrong on purpose\n'
+    'v2 = undefined_v2  # see below # and here\ndef g() -> int:\n  return "s"  # returns a str\n'
+    'v3 = f(1,\n       "t")  # multi-line call, comment on the last line\n',
 ]
 
 
